@@ -6,7 +6,7 @@
    exact) and Model/Calipers.v (carrier Q). *)
 From Coq Require Import ZArith QArith List Bool Permutation Sorting.Sorted.
 From SF Require Import Base.GeomAST Model.Hull Model.Calipers Proofs.Hull_proofs Proofs.Hull_chain
-  Proofs.Hull_ring Proofs.Hull_idem Proofs.Hull_main Proofs.Calipers_proofs.
+  Proofs.Hull_ring Proofs.Hull_idem Proofs.Hull_main Proofs.Calipers_proofs Proofs.Calipers_walk.
 Import ListNotations.
 Open Scope Z_scope.
 
@@ -155,6 +155,41 @@ Theorem mbr_side_collinear : forall (ring : list pt) (a b : pt), a <> b ->
 Proof. exact mbr_side_collinear_lemma. Qed.
 Print Assumptions mbr_side_collinear.
 
+(* ---- the rotating-calipers walk itself (findMBR / caliper.update as written: three indices
+   advanced while the next vertex is not nearer, fuel 2n+2 per update) ---- *)
+(* on every strictly convex counter-clockwise ring whose vertices lie on or left of all its edges
+   (what hull_correct gives) the walk terminates, never indexes out of range, and reaches for
+   every base edge exactly the extreme projections of the reference candidates *)
+Theorem caliper_walk_is_reference : forall ring : list pt,
+  ring_convex ring -> walk_candidates ring = Some (candidates ring).
+Proof. exact walk_candidates_correct. Qed.
+Print Assumptions caliper_walk_is_reference.
+Theorem hull_ring_is_convex : forall ps ring : list pt, hull_pts ps = HPoly ring -> ring_convex ring.
+Proof. exact hull_ring_convex. Qed.
+Print Assumptions hull_ring_is_convex.
+(* one caliper on its own: from a start index that is not strictly inside a descent of the
+   projection, caliper.update ends at a vertex attaining the maximum over the whole ring *)
+Theorem caliper_update_reaches_max : forall (ring : list pt) (off u : pt) (s : nat),
+  ring_convex ring -> u <> (0, 0) -> Good ring u s ->
+  exists k, caliper_update ring (length ring) off u s = Some (k, dot (sub (P ring k) off) u) /\
+            In (P ring k) ring /\ forall v, In v ring -> dot (sub v off) u <= dot (sub (P ring k) off) u.
+Proof. exact caliper_update_reaches_max_lemma. Qed.
+Print Assumptions caliper_update_reaches_max.
+(* findMBR as written (walk, then first strictly smaller metric) returns the reference result,
+   and it always returns one on a hull ring *)
+Theorem walked_mbr_is_find_mbr : forall (k : metric_kind) (ps ring : list pt),
+  hull_pts ps = HPoly ring -> walked_mbr k ring = find_mbr k ring /\ exists c, find_mbr k ring = Some c.
+Proof. exact walked_mbr_is_find_mbr_lemma. Qed.
+Print Assumptions walked_mbr_is_find_mbr.
+(* so minimality and enclosure hold for the WALKED candidates *)
+Theorem walked_mbr_is_min : forall (k : metric_kind) (ps ring : list pt) (c : cand),
+  hull_pts ps = HPoly ring -> walked_mbr k ring = Some c ->
+  exists cs, walk_candidates ring = Some cs /\ In c cs /\
+             (forall c', In c' cs -> (cand_metric k c <= cand_metric k c')%Q) /\
+             (forall c' v, In c' cs -> In v ring -> rect_contains (rect_corners (cand_rect c')) (q_of_pt v) = true).
+Proof. exact walked_mbr_is_min_lemma. Qed.
+Print Assumptions walked_mbr_is_min.
+
 (* ---- non-vacuity ---- *)
 (* duplicates of both extremes, collinear points on three hull edges, an interior point *)
 Definition ex_pts : list pt :=
@@ -177,4 +212,7 @@ Example ex_geom : convex_hull (GColl XYZ [GPoint (MkPoint XYZ None);
                                            GMPoint XYZ [MkPoint XYZ (Some (Build_vtx 0 0 5 0)); MkPoint XYZ (Some (Build_vtx 4 0 5 0))];
                                            GPoly (MkPoly XYZ [MkLine XYZ [Build_vtx 0 0 1 0; Build_vtx 0 3 1 0; Build_vtx 1 1 1 0; Build_vtx 0 0 1 0]])])
   = Some (GPoly (MkPoly XY [MkLine XY [Build_vtx 0 0 0 0; Build_vtx 4 0 0 0; Build_vtx 0 3 0 0; Build_vtx 0 0 0 0]])).
+Proof. vm_compute. reflexivity. Qed.
+Example ex_walk : walk_candidates [(0,0); (2,-1); (5,0); (6,3); (3,5); (-1,2); (0,0)]
+                  = Some (candidates [(0,0); (2,-1); (5,0); (6,3); (3,5); (-1,2); (0,0)]).
 Proof. vm_compute. reflexivity. Qed.
